@@ -46,7 +46,8 @@ def make(case):
         noise=case["noise"] * Fmax, seed=4,
         tilt=case["tilt"] * Fmax / 3e-6,
         drift=case["drift"] * Fmax / (2 * case["n"] * 1e-3),
-        lag=case["lag"], quant=case["quant"], innate_tip=False)
+        lag=case["lag"], quant=case["quant"], innate_tip=False,
+        drive=case.get("drive", "linear"))
 
 
 def well_formed(idnt):
@@ -129,6 +130,7 @@ def case_fn(case):
                 viol("foreign-column", f"{step}:{c}", f"step {step} changed "
                      f"column '{c}' which it does not own")
 
+    only_smooth = bool(case.get("only_smooth"))
     # 1. tip-sample separation
     before = snapshot(idnt)
     apply(T)
@@ -143,6 +145,8 @@ def case_fn(case):
             viol("tip-separation", "compute_tip_position", "tip position != "
                  "height (measured) + force / spring constant: max |d| = "
                  f"{np.max(np.abs(after['tip position'] - exp)):.3e}")
+    if only_smooth:
+        return _smooth_part(case, idnt, out, viol, common, apply, nchecks)
     # 2. force offset
     before = after
     apply(T + ["correct_force_offset"])
@@ -273,6 +277,10 @@ def case_fn(case):
                      "truth", f"switch at {idturn}, piezo turns at "
                      f"{case['n'] - 1}, force maximum at "
                      f"{case['n'] - 1 + case['lag']}")
+    return _smooth_part(case, idnt, out, viol, common, apply, nchecks)
+
+
+def _smooth_part(case, idnt, out, viol, common, apply, nchecks):
     # 6. height smoothing (after segment discovery and on its own)
     for pipe in (T + ["correct_split_approach_retract", "smooth_height"],
                  T + ["smooth_height"]):
@@ -321,6 +329,15 @@ def cases(tier):
             continue
         cs.append({"kind": "grid", "model": mk, "noise": noise, "tilt": tilt,
                    "drift": drift, "lag": lag, "quant": q, "n": n})
+    # densely sampled curves with a smooth z-drive and a lagged turning
+    # point: the measured height reverses gently near the turning point
+    for n in ((20000,) if tier == "quick" else (20000, 40000, 8000)):
+        for lag in ((20,) if tier == "quick" else (8, 20, 30)):
+            for noise in (0.0, 1e-5):
+                cs.append({"kind": "grid", "model": "hertz_para",
+                           "noise": noise, "tilt": 0.0, "drift": 0.0,
+                           "lag": lag, "quant": 0.0, "n": n,
+                           "drive": "cos", "only_smooth": True})
     for f in RECORDED:
         if f.endswith("force-map"):
             for en in range(4):
